@@ -41,6 +41,8 @@ def plan(tier, seed):
         units.append({'kind': 'compress', 'n': 125 if q else 500, 'weight': 3})
     for i in range(16 if q else 128):
         units.append({'kind': 'sm9', 'weight': 3})
+    for i in range(6 if q else 48):
+        units.append({'kind': 'sm2ct', 'weight': 2})
     return units
 
 
@@ -624,6 +626,57 @@ def u_sm9(ctx, u):
     ctx.sample({'kind': 'sm9', 'g1_values': [v[0] for v in vals]})
 
 
+def u_sm2ct(ctx, u):
+    """SM2 ciphertext point C1 (the peer's share in the key agreement that decryption performs): every crafted C1 of C02's
+    catalogue - (0,0), coordinates >= p, off-curve, wrong curve - with the C2/C3 an attacker can compute without the private
+    key (the all-zero serialisation of infinity, and the group-law result), through the struct and the DER interfaces."""
+    import ctypes
+    from . import c02
+    rng, lib = ctx.rng, ctx.lib
+    d, pk, key, pub_only = c02._mk_key(ctx)
+    msg = rng.randbytes(rng.choice([1, 16, 32, 60]))
+    ref = None
+    while ref is None:
+        ref = R.encrypt_with_k(pk, msg, rng.randrange(1, N))
+    c1 = ref[0]
+    for name, pt in c02._bad_points(rng, c1):
+        shared = [('infinity', (0, 0))]
+        if pt[0] < P and pt[1] < P and pt != (0, 0):
+            try:
+                sp = R.mul(d, pt)
+            except (ZeroDivisionError, ValueError):
+                sp = None
+            if sp is not None:
+                shared.append(('group-law', sp))
+        for sname, (x2, y2) in shared:
+            t = R.kdf(R.i2b(x2) + R.i2b(y2), len(msg))
+            if not any(t):
+                continue
+            c2w = bytes(a ^ b for a, b in zip(msg, t))
+            c3w = R.sm3(R.i2b(x2) + msg + R.i2b(y2))
+            ctx.begin(['sm2ct', name, sname])
+            sb = ctx.inbuf(c02._ct_struct(ctx, pt, c3w, c2w))
+            out = ctx.buf(len(c2w))
+            ol = ctypes.c_size_t(0)
+            r = lib.sm2_do_decrypt(key, sb, out, ctypes.byref(ol))
+            ctx.check(r != 1, 'point:sm2-ciphertext-c1:accepted-invalid:%s' % name, interface='sm2_do_decrypt', shared=sname,
+                      c1=[hex(pt[0]), hex(pt[1])])
+            sb.free()
+            out.free()
+            if pt[0] < (1 << 256) and pt[1] < (1 << 256):
+                der = R.ct_der(pt, c3w, c2w)
+                db = ctx.inbuf(der)
+                out = ctx.buf(255)
+                r = lib.sm2_decrypt(key, db, len(der), out, ctypes.byref(ol))
+                ctx.check(r != 1, 'point:sm2-ciphertext-c1:accepted-invalid:%s' % name, interface='sm2_decrypt', shared=sname, der=der.hex())
+                db.free()
+                out.free()
+            ctx.nontrivial('sm2ct', name, sname, d)
+    key.free()
+    pub_only.free()
+    ctx.sample({'kind': 'sm2ct'})
+
+
 def run_unit(ctx, u):
     {'raw': u_raw, 'octets': u_octets, 'containers': u_containers, 'tls': u_tls, 'private': u_private, 'compress': u_compress,
-     'sm9': u_sm9}[u['kind']](ctx, u)
+     'sm9': u_sm9, 'sm2ct': u_sm2ct}[u['kind']](ctx, u)
